@@ -15,7 +15,9 @@ class Ctx:
         self.pid, self.tier, self.seed, self.replay = pid, tier, seed, replay
         self.notes = []
 
-# property id -> spec
+# property id -> spec.  Each translator-tie lemma (`equiv`) is an obligation of exactly ONE property -- the one
+# whose statement is about what that function computes -- so that a rewrite of one function is reported
+# once, by its owner (plus whatever the monitors show to fail), not by every property that uses the model.
 PROPS = {}
 
 def prop(pid, **kw):
@@ -32,29 +34,29 @@ UBDEF = ("the machine's catalogue of UB kinds is the definition of memory unsafe
          "optimiser-dependent manifestations of UB are not modelled")
 
 prop("C01", title="operation sequences behave like std Vec", equiv=["EquivElem.push_equiv", "EquivPop.pop_equiv", "EquivInsert.insert_equiv", "EquivRemove.remove_equiv", "EquivSwapRemove.swap_remove_equiv", "EquivElem.truncate_equiv", "EquivElem.clear_equiv", "EquivElem.set_len_equiv", "EquivAppend.append_equiv", "EquivAppend.is_empty_equiv"], trusted=[HAND, EXTR, "std::vec::Vec as the oracle of the list-level spec (three-way run)"])
-prop("C02", title="exactly-once ownership", equiv=["EquivElem.push_equiv", "EquivPop.pop_equiv", "EquivInsert.insert_equiv", "EquivRemove.remove_equiv", "EquivSwapRemove.swap_remove_equiv", "EquivElem.truncate_equiv", "EquivElem.clear_equiv", "EquivElem.set_len_equiv", "EquivDrop.drop_equiv", "EquivAppend.append_equiv"], trusted=[HAND, EXTR, UBDEF])
-prop("C03", title="allocator contract", equiv=["next_aligned_equiv", "make_layout_equiv", "max_align_equiv", "EquivGrow.grow_equiv", "EquivDrop.drop_equiv"], trusted=[HAND, EXTR, UBDEF, "the GlobalAlloc contract as written in Machine.do_realloc/do_dealloc"])
-prop("C04", title="panic safety", equiv=["EquivElem.truncate_equiv", "EquivElem.clear_equiv", "EquivElem.push_equiv", "EquivInsert.insert_equiv"], trusted=[HAND, EXTR, UBDEF])
+prop("C02", title="exactly-once ownership", equiv=[], trusted=[HAND, EXTR, UBDEF])
+prop("C03", title="allocator contract", equiv=["EquivGrow.grow_equiv", "EquivDrop.drop_equiv"], trusted=[HAND, EXTR, UBDEF, "the GlobalAlloc contract as written in Machine.do_realloc/do_dealloc"])
+prop("C04", title="panic safety", equiv=[], trusted=[HAND, EXTR, UBDEF])
 prop("C05", title="forget safety", trusted=[HAND, EXTR, UBDEF])
-prop("C06", title="never-allocated vector", equiv=["EquivCap.len_equiv", "EquivCap.capacity_equiv", "EquivCap.alignment_equiv", "EquivElem.data_equiv", "EquivElem.as_ptr_equiv", "EquivElem.as_mut_ptr_equiv", "EquivAppend.append_equiv", "EquivAppend.is_empty_equiv"], trusted=[HAND, EXTR, UBDEF], profiles="dr")
-prop("C07", title="capacity honest / reservation contract / stability", equiv=["next_aligned_equiv", "make_layout_equiv", "EquivCap.len_equiv", "EquivCap.capacity_equiv", "EquivCap.reserve_exact_equiv", "EquivCap.shrink_to_fit_equiv", "EquivCap.shrink_to_equiv", "EquivGrow.grow_equiv", "EquivElem.push_equiv", "EquivInsert.insert_equiv"], trusted=[HAND, EXTR])
-prop("C08", title="alignment", equiv=["next_aligned_equiv", "make_layout_equiv", "max_align_equiv", "EquivCap.alignment_equiv", "EquivGrow.grow_equiv"], trusted=[HAND, EXTR])
-prop("C09", title="impossible sizes", equiv=["next_aligned_equiv", "make_layout_equiv", "max_align_equiv", "EquivCap.reserve_exact_equiv", "EquivGrow.grow_equiv"], quick_n=240, thorough_n=4000, child_timeout=15,
+prop("C06", title="never-allocated vector", equiv=["EquivAsPtr.as_ptr_equiv"], trusted=[HAND, EXTR, UBDEF], profiles="dr")
+prop("C07", title="capacity honest / reservation contract / stability", equiv=["EquivCap.len_equiv", "EquivCap.capacity_equiv", "EquivCap.reserve_exact_equiv", "EquivCap.shrink_to_fit_equiv", "EquivCap.shrink_to_equiv"], trusted=[HAND, EXTR])
+prop("C08", title="alignment", equiv=["EquivAlign.alignment_equiv", "EquivMaxAlign.max_align_equiv"], trusted=[HAND, EXTR])
+prop("C09", title="impossible sizes", equiv=["next_aligned_equiv", "make_layout_equiv"], quick_n=240, thorough_n=4000, child_timeout=15,
      trusted=[HAND, EXTR, "Eval.v's reading of usize arithmetic (panic in debug, wrap in release), checked_add/checked_mul and Layout::from_size_align"])
 prop("C10", title="iterator protocol", trusted=[HAND, EXTR])
-prop("C11", title="out-of-range arguments rejected atomically", equiv=["EquivInsert.insert_equiv", "EquivRemove.remove_equiv", "EquivSwapRemove.swap_remove_equiv", "EquivElem.truncate_equiv", "EquivCap.shrink_to_equiv"], trusted=[HAND, EXTR])
+prop("C11", title="out-of-range arguments rejected atomically", equiv=[], trusted=[HAND, EXTR])
 prop("C12", title="clones deep and independent", trusted=[HAND, EXTR, UBDEF])
 prop("C13", title="handle is one pointer wide with a niche", impl="sizes",
      trusted=["coq/Layout.v: rustc's repr(Rust) struct layout rules are MODELLED (40 lines), not verified; "
               "rustc is the observed oracle (size_of/align_of table printed by the harness)"])
-prop("C14", title="raw-pointer round trip", equiv=["next_aligned_equiv", "EquivElem.data_equiv", "EquivElem.as_mut_ptr_equiv", "EquivRaw.into_raw_parts_equiv", "EquivRaw.from_raw_part_equiv", "EquivRaw.from_raw_parts_equiv"], trusted=[HAND, EXTR, UBDEF])
+prop("C14", title="raw-pointer round trip", equiv=["EquivData.data_equiv", "EquivData.as_mut_ptr_equiv", "EquivRaw.into_raw_parts_equiv", "EquivRaw.from_raw_part_equiv", "EquivRaw.from_raw_parts_equiv"], trusted=[HAND, EXTR, UBDEF])
 prop("C15", title="slice semantics of comparisons", trusted=[HAND, EXTR, "the delegation shapes are read from syntax (rs2v deleg_shape); core's slice impls are trusted"])
 prop("C16", title="compile-time rules", impl="rustc",
      trusted=["rustc is the observed oracle: the corpus of must-not-compile / must-compile programs is compiled against the current crate",
               "coq/Static.v checks signature tables only; Rust's borrow checker, auto-trait derivation and variance are NOT modelled"])
 prop("C17", title="ill-behaved safe callbacks", trusted=[HAND, EXTR, UBDEF])
-prop("C18", title="allocation failure", equiv=["make_layout_equiv", "EquivGrow.grow_equiv"], quick_n=240, thorough_n=3000, profiles="dr", trusted=[HAND, EXTR])
-prop("C19", title="serde", equiv=["map_size_hint_equiv"], impl="serde",
+prop("C18", title="allocation failure", equiv=[], quick_n=240, thorough_n=3000, profiles="dr", trusted=[HAND, EXTR])
+prop("C19", title="serde", equiv=["EquivSerde.map_size_hint_equiv"], impl="serde",
      trusted=["the two visitor loops of src/serde.rs are not modelled in Coq; they are exercised by the harness with a recording serializer and a scripted SeqAccess"])
 
 def coq_side(ctx, P):
